@@ -220,9 +220,20 @@ def first_bad_record(r):
 def run(prop, tier, replay):
     sc = vlib.Scratch(prop)
     try:
+        if replay and json.load(open(replay)).get("kind") == "regconc":
+            import fam_registry
+            return fam_registry.replay(sc, replay)
         binp = vlib.go_build(sc, "./cmd/actorscen", "actorscen")
         if replay:
             return do_replay(sc, binp, prop, replay)
+        if prop == "C10":
+            # sequential histories (Actor.tla) and, at lock level, concurrent spawns (Registry.tla)
+            import fam_registry
+            v = vlib.Verdict(prop, tier)
+            do_check(sc, binp, prop, tier, v)
+            if not v.violations:
+                fam_registry.conc_part(sc, v, tier)
+            return v.finish()
         return do_check(sc, binp, prop, tier)
     finally:
         sc.cleanup()
